@@ -35,6 +35,12 @@ static std::string apply(const Sample &sm, const json &c, bool &ok) {
 	std::string op = c["op"]; size_t k = c.value("k", 0);
 	if (op == "TruncChar") { if (k > s.size()) ok = false; else s = s.substr(0, k); return s; }
 	if (op == "FlipByte") { if (k >= s.size()) ok = false; else s[k] = (char)(s[k] ^ (int)c.value("v", 1)); return s; }
+	if (op == "SetBytes" || op == "InsBytes") {
+		if (k >= s.size()) { ok = false; return s; }
+		std::string v; for (size_t x = 0; x < c["v"].size(); x++) v.push_back((char)(int)c["v"][x]);
+		if (op == "InsBytes") s.insert(k, v); else s.replace(k, std::min(v.size(), s.size() - k), v);
+		return s;
+	}
 	if (op == "SetByte") { if (k >= s.size()) ok = false; else s[k] = (char)(int)c.value("v", 0); return s; }
 	std::vector<std::pair<size_t, size_t> > f = fields(s);
 	if (k >= f.size()) { ok = false; return s; }
